@@ -328,6 +328,7 @@ func (v *Protocol) ReadMessage() (m *Message, err error) {
 			chunk = newChunkStream()
 			v.input.chunks[cid] = chunk
 			chunk.header.betterCid = cid
+			chunk.cid = cid
 		}
 
 		if err = v.readMessageHeader(chunk, format); err != nil {
